@@ -29,6 +29,19 @@ theorem C10_no_deadlock (rank : Nat → Nat) (ths : List Locks.ThL) (ho : Locks.
     ¬ Locks.Deadlocked ths :=
   Locks.no_deadlock rank ths ho
 
+/-- C10 (b) with the hypothesis in the form the harness audits on the real code: every acquisition
+observed (a thread about to take lock `w` while holding `holds`) passes `Locks.acquireOk` for the
+roles buffer < file < class-registry.  Then no deadlock, for any number of threads and locks. -/
+theorem C10_no_deadlock_audited (role : Nat → Locks.Role) (ths : List Locks.ThL)
+    (h : ∀ th ∈ ths, ∀ w, th.waits = some w → Locks.acquireOk (th.holds.map role) (role w) = true) :
+    ¬ Locks.Deadlocked ths :=
+  Locks.no_deadlock _ ths (Locks.ordered_of_audit role ths h)
+
+/-- the audit rejects exactly the inversions: taking a file lock while holding the class lock,
+or the buffer lock while holding a file lock; two different file locks at once are rejected too -/
+example : Locks.acquireOk [.cls] .file = false ∧ Locks.acquireOk [.file] .buffer = false ∧
+    Locks.acquireOk [.file] .file = false ∧ Locks.acquireOk [.buffer, .file] .cls = true := by decide
+
 /-- the model exhibits the defect the property excludes: the bracket without the release in
 `__enter__` (the code before the fix) leaves the file lock held when the load raises. -/
 theorem C10_old_bracket_leaks : Bracket.held [Bracket.Ev.acq .file, .load] [] ≠ [] :=
